@@ -251,6 +251,9 @@ func parseRequestBody(c *Client, r *Request) (err error) {
 		r.GetBody = nil
 		return
 	}
+	if len(r.OrderedFormData)%2 != 0 {
+		return errBadOrderedFormData
+	}
 	// handle multipart
 	if r.isMultiPart {
 		return handleMultiPart(c, r)
